@@ -191,6 +191,16 @@ func init() {
 			if g.chance(1, 2) && g.alive(g.sudo) {
 				who = g.sudo // the owner mints without a fee
 			}
+			if g.nTok > 0 && g.chance(1, 2) {
+				// a generated token: its owner mints without a fee, anybody else pays the fee rate in ukex
+				denom := fmt.Sprintf("tk%d", 1+g.rn(g.nTok))
+				if info := g.w.app.TokensKeeper.GetTokenInfo(g.ctx, denom); info != nil {
+					if o, ok := g.idx[info.Owner]; ok && g.alive(o) && g.chance(2, 3) {
+						who = o
+					}
+					return g.add("token-mint-issue-generated", who, &l2types.MsgMintIssueTx{Sender: g.S(who), Denom: denom, Amount: sdk.NewInt(int64(1000 + g.rn(100000))), Receiver: g.S(who)})
+				}
+			}
 			return g.add("token-mint-issue", who, &l2types.MsgMintIssueTx{Sender: g.S(who), Denom: "ku/rich", Amount: sdk.NewInt(int64(1000 + g.rn(100000))), Receiver: g.S(who)})
 		}},
 	)
@@ -590,7 +600,22 @@ func init() {
 				if !ok || !g.alive(o) {
 					return false
 				}
-				return g.add("token-info-edit", o, tokenstypes.NewMsgUpsertTokenInfo(g.A(o), denom, "adr20", info.FeeRate, info.FeeEnabled, info.Supply, info.SupplyCap, info.StakeCap, info.StakeMin, info.StakeEnabled, info.Inactive,
+				// … and tries to move the supply cap: unchanged, below what was issued, exactly what was issued, halfway
+				// between issued and cap, above the cap, removed
+				cap := info.SupplyCap
+				switch g.rn(8) {
+				case 0:
+					cap = info.Supply.QuoRaw(2)
+				case 1:
+					cap = info.Supply
+				case 2:
+					cap = info.Supply.Add(info.SupplyCap).QuoRaw(2)
+				case 3:
+					cap = info.SupplyCap.MulRaw(2)
+				case 4:
+					cap = sdk.ZeroInt()
+				}
+				return g.add("token-info-edit", o, tokenstypes.NewMsgUpsertTokenInfo(g.A(o), denom, "adr20", info.FeeRate, info.FeeEnabled, info.Supply, cap, info.StakeCap, info.StakeMin, info.StakeEnabled, info.Inactive,
 					info.Symbol, info.Name, "icon2", info.Decimals, fmt.Sprintf("edited %d", g.b), "w", "s", 0, sdk.NewInt(int64(g.rn(100))), info.Owner, false, "", ""))
 			}
 			g.nTok++
